@@ -61,18 +61,20 @@ def check_dict(sx, rep, out, lab):
     sx.check(bool(gym_space.contains({k: v.astype(gym_space[k].dtype) for k, v in out.items()})), lab + '-in-gym-dict-space')
 
 
-def mk_whole(kind, rep, tname, cname, shape):
+def mk_whole(kind, rep, tname, cname, shape, large=False):
     def h(sx):
+        H_, W_ = shape.height, shape.width
+        cp = [(0, 0), (H_ - 1, W_ - 1), (H_ // 2, W_ // 3), (0, W_ - 1)] if large else None
         reset_gv_debug(True)
         try:
             space = make_space(kind, tname, cname, shape)
             objs = real_objects(space, kind)
             if kind == 'state':
                 r = make_state_representation(rep, space)
-                x, _ = fixed_state(sx, space, objs, shape.height, shape.width)
+                x, _ = fixed_state(sx, space, objs, shape.height, shape.width, cp)
             else:
                 r = make_observation_representation(rep, space)
-                x, _ = fixed_observation(sx, space, objs)
+                x, _ = fixed_observation(sx, space, objs, cp)
             out = r.convert(x)
             sx.cover('whole')
             check_dict(sx, r, out, kind)
@@ -108,6 +110,13 @@ def obligations(tier):
     for o in obs:  # a sample of the symbolically decided assertions is re-decided by the cvc5 binary
         if o.name.startswith(('object-',)):
             o.cross_check = 6 if tier == 'quick' else 60
+    # shipped large shapes (the arrays are tiled per cell, the pose is normalised by the shape): one distinguished cell, every pose
+    for rep in REPS:
+        for (tname, cname, shape) in [('keydoor', 'yellow', Shape(9, 9)), ('memory', 'all', Shape(13, 13)), ('obstacles', 'none', Shape(7, 12))]:
+            obs.append(Obligation(f'whole-state-{rep}-{tname}-{cname}-{shape.height}x{shape.width}', mk_whole('state', rep, tname, cname, shape, large=True),
+                                  dict(kind='state', representation=rep, types=tname, colours=cname, shape=[shape.height, shape.width], distinguished_cell='4 positions')))
+        obs.append(Obligation(f'whole-observation-{rep}-keydoor-yellow-7x7', mk_whole('observation', rep, 'keydoor', 'yellow', Shape(7, 7), large=True),
+                              dict(kind='observation', representation=rep, types='keydoor', colours='yellow', shape=[7, 7])))
     return obs
 
 
